@@ -54,9 +54,9 @@ def finStr : Fin → String
 def runStr (r : Run) : String := joinWith "," (r.dates.map toString) ++ " " ++ finStr r.fin
 
 /-- orbit values of the harness: (object, number of changes of its elements, number of changes of its drag term);
-`Sgp4._state` does not see the drag term -/
+`Sgp4._state` sees both -/
 def mkWorld (k : Kind) (order : Nat) (h : Int) (npts : Nat) : World (Nat × Nat × Nat) :=
-  { kind := k, store := Prod.mk, sameState := fun a b => a.1 == b.1 && a.2.1 == b.2.1, epoch := fun _ => 0, h := h, order := order, pts := (List.range npts).map (fun (j : Nat) => Int.ofNat j * h) }
+  { kind := k, store := Prod.mk, sameState := fun a b => a == b, epoch := fun _ => 0, h := h, order := order, pts := (List.range npts).map (fun (j : Nat) => Int.ofNat j * h) }
 
 def call? (s : String) : Option Call :=
   match s.splitOn "/" with
